@@ -1,7 +1,478 @@
-//! C07 — not built yet
-use crate::vcore::Tier;
+//! C07 — port addresses reach the right device under Spectrum partial decoding.
+//! E-PROD over all 65536 port addresses x {IN, OUT} x machine x Kempston x mouse x extender claim
+//! set, executed by the emulated CPU; floating bus at every T of the frame.
 
-pub fn run(_tier: Tier, _seed: u64, _replay: Option<String>) -> i32 {
-    eprintln!("MACHINERY: check C07 is not built yet");
-    2
+use crate::refzx::*;
+use crate::rig::{self, Claim, Emu, Opts, VExt};
+use crate::vcore::{par_for, Ctx, Tier};
+use rustzx_core::zx::{
+    joy::kempston::KempstonKey,
+    keys::ZXKey,
+    mouse::kempston::KempstonMouseButton,
+};
+use serde_json::json;
+use std::collections::BTreeSet;
+
+const CODE: u16 = 0x8000;
+// aliases (A8=0) of the device ports used for set-up and restore, outside every extender claim set
+const P_AYSEL: u16 = 0xFEFD;
+const P_AYDATA: u16 = 0xBEFD;
+const P_PAGING: u16 = 0x7EFD;
+const P_ULA: u16 = 0xBEFE;
+const EXT_BYTE: u8 = 0xE7;
+const KEMP_BYTE: u8 = 0x15;
+const AY_SEL: u8 = 7;
+const AY_VAL: u8 = 0x5A;
+const AY_SEL2: u8 = 0x0B;
+const AY_VAL2: u8 = 0x6C;
+const OUT_DATA: u8 = 0x0B;
+
+#[derive(Clone, Copy, Debug, PartialEq, Eq)]
+struct Config {
+    m128: bool,
+    kempston: bool,
+    mouse: bool,
+    ext: u8,
+}
+
+fn ext_claim(k: u8) -> Claim {
+    match k {
+        0 => Claim::None,
+        1 => Claim::Exact(0xCCCC),
+        2 => Claim::Mask(0x0181, 0x0181), // all odd ports with A7=1 and A8=1 (overlaps AY, paging, mouse X/Y)
+        _ => Claim::Exact(0x00FE),
+    }
+}
+
+#[derive(Clone, Copy, Debug, PartialEq, Eq, PartialOrd, Ord, Hash)]
+enum Dev {
+    Ext,
+    Ula,
+    Paging,
+    AySel,
+    AyData,
+    Kempston,
+    MouseButtons,
+    MouseX,
+    MouseY,
+}
+
+/// (devices that claim, devices that may claim) for an access, from the property statement
+fn claims(cfg: &Config, port: u16, write: bool) -> (Vec<Dev>, Vec<Dev>) {
+    let mut c = Vec::new();
+    let mut may = Vec::new();
+    let ext = VExt::new(ext_claim(cfg.ext), EXT_BYTE);
+    if ext.claims(port) {
+        // the extender receives exactly the ports it claims, ahead of everything else
+        return (vec![Dev::Ext], vec![]);
+    }
+    if port & 1 == 0 {
+        c.push(Dev::Ula);
+    }
+    if cfg.m128 && write && port & 0x8002 == 0 {
+        c.push(Dev::Paging);
+    }
+    if port & 0xC002 == 0xC000 {
+        c.push(Dev::AySel);
+    }
+    if write && port & 0xC002 == 0x8000 {
+        c.push(Dev::AyData);
+    }
+    if cfg.kempston && !write && port & 0x00E0 == 0 {
+        c.push(Dev::Kempston);
+    }
+    if cfg.mouse && !write {
+        if port & 0x00FF == 0x00DF {
+            if port & 0x0100 == 0 {
+                c.push(Dev::MouseButtons);
+            } else if port & 0x0400 == 0 {
+                c.push(Dev::MouseX);
+            } else {
+                c.push(Dev::MouseY);
+            }
+        } else if port & 0x0021 == 0x0001 {
+            // "-style": the wider A0=1, A5=0 family is left open by the statement
+            may.push(Dev::MouseButtons);
+        }
+    }
+    (c, may)
+}
+
+const ROW_PATTERN: [u8; 8] = [0x1E, 0x1D, 0x1B, 0x17, 0x0F, 0x1C, 0x19, 0x13];
+
+fn press_pattern(e: &mut Emu) {
+    // row r reads ROW_PATTERN[r] (bit clear = pressed)
+    let rows: [[ZXKey; 5]; 8] = [
+        [ZXKey::Shift, ZXKey::Z, ZXKey::X, ZXKey::C, ZXKey::V],
+        [ZXKey::A, ZXKey::S, ZXKey::D, ZXKey::F, ZXKey::G],
+        [ZXKey::Q, ZXKey::W, ZXKey::E, ZXKey::R, ZXKey::T],
+        [ZXKey::N1, ZXKey::N2, ZXKey::N3, ZXKey::N4, ZXKey::N5],
+        [ZXKey::N0, ZXKey::N9, ZXKey::N8, ZXKey::N7, ZXKey::N6],
+        [ZXKey::P, ZXKey::O, ZXKey::I, ZXKey::U, ZXKey::Y],
+        [ZXKey::Enter, ZXKey::L, ZXKey::K, ZXKey::J, ZXKey::H],
+        [ZXKey::Space, ZXKey::SymShift, ZXKey::M, ZXKey::N, ZXKey::B],
+    ];
+    for r in 0..8 {
+        for b in 0..5 {
+            if ROW_PATTERN[r] & (1 << b) == 0 {
+                e.send_key(rows[r][b], true);
+            }
+        }
+    }
+}
+
+fn ula_expected(port: u16) -> u8 {
+    let h = (port >> 8) as u8;
+    let mut v = 0x1F;
+    for r in 0..8 {
+        if h & (1 << r) == 0 {
+            v &= ROW_PATTERN[r];
+        }
+    }
+    v
+}
+
+struct Machine {
+    e: Emu,
+    cfg: Config,
+    mouse_vals: (u8, u8, u8),
+}
+
+fn build(cfg: &Config) -> Machine {
+    let mut o = Opts::machine(cfg.m128);
+    o.kempston = cfg.kempston;
+    o.mouse = cfg.mouse;
+    o.sound = false;
+    let mut e = rig::emu_stepping(&o);
+    e.set_io_extender(VExt::new(ext_claim(cfg.ext), EXT_BYTE));
+    press_pattern(&mut e);
+    e.send_kempston_key(KempstonKey::Right, true);
+    e.send_kempston_key(KempstonKey::Down, true);
+    e.send_kempston_key(KempstonKey::Fire, true);
+    e.send_mouse_button(KempstonMouseButton::Right, true);
+    e.send_mouse_pos_diff(0x21, 0x3C);
+    // AY registers through the canonical ports
+    rig::cpu_out(&mut e, CODE, P_AYSEL, AY_SEL2);
+    rig::cpu_out(&mut e, CODE, P_AYDATA, AY_VAL2);
+    rig::cpu_out(&mut e, CODE, P_AYSEL, AY_SEL);
+    rig::cpu_out(&mut e, CODE, P_AYDATA, AY_VAL);
+    let mouse_vals = if cfg.mouse {
+        (rig::cpu_in(&mut e, CODE, 0xFADF), rig::cpu_in(&mut e, CODE, 0xFBDF), rig::cpu_in(&mut e, CODE, 0xFFDF))
+    } else {
+        (0, 0, 0)
+    };
+    if let Some(x) = e.io_extender() {
+        x.log.clear();
+    }
+    Machine { e, cfg: *cfg, mouse_vals }
+}
+
+fn restore(m: &mut Machine) {
+    let e = &mut m.e;
+    if e.verif_paging().0 != 0 && m.cfg.m128 {
+        rig::cpu_out(e, CODE, P_PAGING, 0);
+    }
+    let b: u8 = e.border_color().into();
+    if b != 0 {
+        rig::cpu_out(e, CODE, P_ULA, 0);
+    }
+    rig::cpu_out(e, CODE, P_AYSEL, AY_SEL2);
+    rig::cpu_out(e, CODE, P_AYDATA, AY_VAL2);
+    rig::cpu_out(e, CODE, P_AYSEL, AY_SEL);
+    rig::cpu_out(e, CODE, P_AYDATA, AY_VAL);
+    if let Some(x) = e.io_extender() {
+        x.log.clear();
+    }
+}
+
+fn cfg_name(c: &Config) -> String {
+    format!("{}{}{}:ext{}", if c.m128 { "128k" } else { "48k" }, if c.kempston { "+kempston" } else { "" }, if c.mouse { "+mouse" } else { "" }, c.ext)
+}
+
+fn dev_name(d: Dev) -> &'static str {
+    match d {
+        Dev::Ext => "extender",
+        Dev::Ula => "ula",
+        Dev::Paging => "paging",
+        Dev::AySel => "ay-select",
+        Dev::AyData => "ay-data",
+        Dev::Kempston => "kempston",
+        Dev::MouseButtons => "mouse-buttons",
+        Dev::MouseX => "mouse-x",
+        Dev::MouseY => "mouse-y",
+    }
+}
+
+/// which devices reacted to a write of OUT_DATA
+fn write_effects(m: &mut Machine) -> BTreeSet<Dev> {
+    let mut s = BTreeSet::new();
+    let e = &mut m.e;
+    let b: u8 = e.border_color().into();
+    if b != 0 {
+        s.insert(Dev::Ula);
+    }
+    if e.verif_paging().0 != 0 {
+        s.insert(Dev::Paging);
+    }
+    if let Some(x) = e.io_extender() {
+        if !x.log.is_empty() {
+            s.insert(Dev::Ext);
+        }
+    }
+    // AY: read back through the canonical port (the extender never claims FFFD in these configs
+    // except the A7=1 odd family, handled by the caller)
+    let rb = rig::cpu_in(e, CODE, P_AYSEL);
+    if let Some(x) = e.io_extender() {
+        x.log.clear();
+    }
+    if rb == AY_VAL2 {
+        s.insert(Dev::AySel);
+    } else if rb == OUT_DATA {
+        s.insert(Dev::AyData);
+    } else if rb != AY_VAL && rb != EXT_BYTE {
+        s.insert(Dev::AyData);
+        s.insert(Dev::AySel);
+    }
+    s
+}
+
+fn sweep(ctx: &Ctx, cfg: &Config, lo: u32, hi: u32) {
+    let mut m = build(cfg);
+    let name = cfg_name(cfg);
+    let ay_observable = !VExt::new(ext_claim(cfg.ext), 0).claims(P_AYSEL);
+    for port in lo..hi {
+        let port = port as u16;
+        // ---------------- read
+        let (c, may) = claims(cfg, port, false);
+        m.e.verif_set_frame_clocks(100); // top border: floating bus is FF
+        let got = rig::cpu_in(&mut m.e, CODE, port);
+        ctx.add_eval(1);
+        let judged = may.is_empty() && c.len() <= 1;
+        if judged {
+            let want: u8 = match c.first() {
+                None => 0xFF,
+                Some(Dev::Ext) => EXT_BYTE,
+                Some(Dev::Ula) => ula_expected(port) | 0xA0 | (got & 0x40),
+                Some(Dev::AySel) => AY_VAL,
+                Some(Dev::Kempston) => KEMP_BYTE,
+                Some(Dev::MouseButtons) => m.mouse_vals.0,
+                Some(Dev::MouseX) => m.mouse_vals.1,
+                Some(Dev::MouseY) => m.mouse_vals.2,
+                Some(_) => 0xFF,
+            };
+            if got != want {
+                let who = c.first().map(|d| dev_name(*d)).unwrap_or("nobody(floating-bus)");
+                ctx.violation(
+                    &format!("C07:read:{}:{}", who, if cfg.m128 { "128k" } else { "48k" }),
+                    &format!("[{}] IN from port {:04x} returned {:02x}; the only device selected is {} which answers {:02x}", name, port, got, who, want),
+                    json!({"kind":"port","m128":cfg.m128,"kempston":cfg.kempston,"mouse":cfg.mouse,"ext":cfg.ext,"port":port,"write":false}),
+                );
+            }
+        }
+        if let Some(x) = m.e.io_extender() {
+            let called = !x.log.is_empty();
+            x.log.clear();
+            if called != (c.first() == Some(&Dev::Ext)) {
+                ctx.violation(
+                    "C07:extender:read-routing",
+                    &format!("[{}] IN from port {:04x}: extender {} although it {} the port", name, port, if called { "was called" } else { "was not called" }, if called { "does not claim" } else { "claims" }),
+                    json!({"kind":"port","m128":cfg.m128,"kempston":cfg.kempston,"mouse":cfg.mouse,"ext":cfg.ext,"port":port,"write":false}),
+                );
+            }
+        }
+        // ---------------- write
+        let (c, may) = claims(cfg, port, true);
+        rig::cpu_out(&mut m.e, CODE, port, OUT_DATA);
+        ctx.add_eval(1);
+        let mut eff = write_effects(&mut m);
+        if !ay_observable {
+            eff.remove(&Dev::AySel);
+            eff.remove(&Dev::AyData);
+        }
+        let judged = may.is_empty() && c.len() <= 1;
+        if judged {
+            let mut want: BTreeSet<Dev> = c.iter().cloned().collect();
+            if !ay_observable {
+                want.remove(&Dev::AySel);
+                want.remove(&Dev::AyData);
+            }
+            if eff != want {
+                let w: Vec<&str> = want.iter().map(|d| dev_name(*d)).collect();
+                let g: Vec<&str> = eff.iter().map(|d| dev_name(*d)).collect();
+                ctx.violation(
+                    &format!("C07:write:{}->{}:{}", if w.is_empty() { "nobody".to_string() } else { w.join("+") }, if g.is_empty() { "nobody".to_string() } else { g.join("+") }, if cfg.m128 { "128k" } else { "48k" }),
+                    &format!("[{}] OUT to port {:04x}: reached {:?}, the only device selected is {:?}", name, port, g, w),
+                    json!({"kind":"port","m128":cfg.m128,"kempston":cfg.kempston,"mouse":cfg.mouse,"ext":cfg.ext,"port":port,"write":true}),
+                );
+            }
+        }
+        ctx.outcome(((got as u64) << 16) ^ crate::vcore::fnv(format!("{:?}{:?}", c, eff).as_bytes()));
+        if !eff.is_empty() {
+            restore(&mut m);
+        }
+    }
+}
+
+/// Floating bus: unclaimed port FF (odd, A5=1, A7..: 0xFFFF? use 0x40FF: odd, A15=0 A14=1 -> no AY,
+/// A5=1 -> no kempston/mouse, A1=1 -> no paging) read at every T of the frame.
+fn floating_bus(ctx: &Ctx, m128: bool, shadow: bool) {
+    let sp = spec(m128);
+    let port = 0x40FFu16;
+    let frame = sp.frame as usize;
+    let chunks = 32usize;
+    par_for(chunks, 1, |c| {
+        let mut o = Opts::machine(m128);
+        o.sound = false;
+        let mut e = rig::emu_stepping(&o);
+        // position-coded non-FF screen bytes in bank 5 (and bank 7 with a different code)
+        let code = |bank: u8, off: usize| -> u8 { ((off as u32 * 5 + bank as u32 * 64 + (off as u32 >> 8)) % 251) as u8 };
+        if m128 {
+            rig::cpu_out(&mut e, CODE, 0x7FFD, 7);
+            let b7: Vec<u8> = (0..6912).map(|i| code(7, i)).collect();
+            rig::poke(&mut e, 0xC000, &b7);
+            rig::cpu_out(&mut e, CODE, 0x7FFD, if shadow { 8 } else { 0 });
+        }
+        let b5: Vec<u8> = (0..6912).map(|i| code(5, i)).collect();
+        rig::poke(&mut e, 0x4000, &b5);
+        let shown = if shadow { 7 } else { 5 };
+        let mut hits_per_line = vec![0u32; 192];
+        for t in (c * frame / chunks)..((c + 1) * frame / chunks) {
+            e.verif_set_frame_clocks(t);
+            let got = rig::cpu_in(&mut e, CODE, port);
+            ctx.add_eval(1);
+            // the I/O read happens a few T after the instruction start: IN A,(C) = 4+4 fetch, then the
+            // 4-T port cycle: sample somewhere in [t+8, t+12]; the +-8 T guard band absorbs it
+            let ts = t as i64 + 10;
+            let rel = ts - sp.first_pixel as i64;
+            let line = if rel >= 0 { rel / sp.line as i64 } else { -1 };
+            let x = if rel >= 0 { rel % sp.line as i64 } else { -1 };
+            let in_fetch_strict = line >= 0 && line < 192 && x >= 8 && x < 128 - 8;
+            let outside_strict = rel < -8 || line >= 192 && !(line == 192 && x < 8) || (line >= 0 && line < 192 && x >= 128 + 8 && x < sp.line as i64 - 8);
+            if outside_strict && got != 0xFF {
+                ctx.violation(
+                    &format!("C07:floating-bus:not-FF-outside-fetch:{}", if m128 { "128k" } else { "48k" }),
+                    &format!("{} machine (shadow screen {}): unclaimed port read at T={} returned {:02x} while the ULA is not fetching picture data", if m128 { "128K" } else { "48K" }, shadow, t, got),
+                    json!({"kind":"floating","m128":m128,"shadow":shadow,"t":t}),
+                );
+            }
+            if in_fetch_strict && got != 0xFF {
+                let y = line as usize;
+                let bm = ((y & 0xC0) << 5) | ((y & 7) << 8) | ((y & 0x38) << 2);
+                let at = 0x1800 + (y >> 3) * 32;
+                let valid: Vec<u8> = (0..32).map(|k| code(shown, bm + k)).chain((0..32).map(|k| code(shown, at + k))).collect();
+                if valid.contains(&got) {
+                    hits_per_line[y] += 1;
+                } else {
+                    let other = if shown == 5 { 7 } else { 5 };
+                    let from_other: Vec<u8> = (0..32).map(|k| code(other, bm + k)).chain((0..32).map(|k| code(other, at + k))).collect();
+                    let which = if m128 && from_other.contains(&got) { "byte-of-the-bank-not-displayed" } else { "byte-not-of-this-line" };
+                    ctx.violation(
+                        &format!("C07:floating-bus:{}:{}", which, if m128 { "128k" } else { "48k" }),
+                        &format!("{} machine (shadow screen {}): unclaimed port read at T={} (picture line {}) returned {:02x}, which is not a bitmap/attribute byte of that line of the displayed screen (bank {})", if m128 { "128K" } else { "48K" }, shadow, t, y, got, shown),
+                        json!({"kind":"floating","m128":m128,"shadow":shadow,"t":t}),
+                    );
+                }
+            }
+            ctx.outcome((got as u64) << 8 | 0x77);
+        }
+        // every complete picture line inside this chunk must show display bytes at least once
+        let t_lo = c * frame / chunks;
+        let t_hi = (c + 1) * frame / chunks;
+        for y in 0..192usize {
+            let l0 = sp.first_pixel as usize + y * sp.line as usize;
+            if l0 >= t_lo + 16 && l0 + 128 + 16 < t_hi && hits_per_line[y] == 0 {
+                ctx.violation(
+                    &format!("C07:floating-bus:never-shows-display-bytes:{}", if m128 { "128k" } else { "48k" }),
+                    &format!("picture line {}: no unclaimed-port read during its fetch window returned a display byte", y),
+                    json!({"kind":"floating","m128":m128,"shadow":shadow,"t":l0}),
+                );
+            }
+        }
+    });
+}
+
+/// EAR on bit 6 follows the tape level both ways
+fn ear_bit(ctx: &Ctx) {
+    use crate::tapemodel::*;
+    let mut o = Opts::k48();
+    o.sound = false;
+    let mut e = rig::emu_stepping(&o);
+    let img = tap_image(&[std_block(0xFF, &[1, 2, 3])]);
+    let _ = e.load_tape(rustzx_core::host::Tape::Tap(rig::VAsset::new(img)));
+    e.play_tape();
+    let mut seen: std::collections::BTreeMap<bool, u8> = std::collections::BTreeMap::new();
+    for k in 0..400 {
+        let v = rig::cpu_in(&mut e, CODE, 0xFEFE);
+        let lvl = e.verif_tape_state().map(|s| s.curr_bit).unwrap_or(false);
+        seen.entry(lvl).or_insert(v & 0x40);
+        if let Some(prev) = seen.get(&lvl) {
+            if *prev != v & 0x40 {
+                ctx.violation("C07:ear:bit6-inconsistent", &format!("bit 6 of the ULA port does not follow the tape level (read {})", k), json!({"kind":"ear"}));
+                return;
+            }
+        }
+        e.verif_set_frame_clocks(100);
+        for _ in 0..60 {
+            rig::cpu_in(&mut e, CODE, 0xFEFE);
+        }
+    }
+    if seen.len() == 2 && seen[&false] == seen[&true] {
+        ctx.violation("C07:ear:bit6-stuck", "bit 6 of the ULA port is the same for both tape levels", json!({"kind":"ear"}));
+    }
+    ctx.note("ear_levels_seen", json!(seen.len()));
+}
+
+pub fn run(tier: Tier, seed: u64, replay: Option<String>) -> i32 {
+    let ctx = Ctx::new("C07", tier, seed, "model_checking");
+    if let Some(path) = replay {
+        let v: serde_json::Value = serde_json::from_slice(&rig::read_file(&path)).expect("replay json");
+        let c = &v["case"];
+        if c["kind"] == "port" {
+            let cfg = Config { m128: c["m128"].as_bool().unwrap(), kempston: c["kempston"].as_bool().unwrap(), mouse: c["mouse"].as_bool().unwrap(), ext: c["ext"].as_u64().unwrap() as u8 };
+            let p = c["port"].as_u64().unwrap() as u32;
+            println!("replay: config {} port {:04x}: claims(read)={:?} claims(write)={:?}", cfg_name(&cfg), p, claims(&cfg, p as u16, false), claims(&cfg, p as u16, true));
+            sweep(&ctx, &cfg, p, p + 1);
+        } else if c["kind"] == "floating" {
+            floating_bus(&ctx, c["m128"].as_bool().unwrap(), c["shadow"].as_bool().unwrap());
+        } else {
+            ear_bit(&ctx);
+        }
+        let n = ctx.violation_classes();
+        println!("replay: {} violation class(es) reproduced", n);
+        return (n > 0) as i32;
+    }
+    let mut cfgs = Vec::new();
+    for m128 in [false, true] {
+        for kempston in [false, true] {
+            for mouse in [false, true] {
+                for ext in 0..4u8 {
+                    if !tier.is_thorough() && ext != 0 && (kempston != mouse) {
+                        continue;
+                    }
+                    cfgs.push(Config { m128, kempston, mouse, ext });
+                }
+            }
+        }
+    }
+    let slices = 16u32;
+    let jobs: Vec<(usize, u32)> = (0..cfgs.len()).flat_map(|i| (0..slices).map(move |s| (i, s))).collect();
+    par_for(jobs.len(), 1, |j| {
+        let (i, s) = jobs[j];
+        sweep(&ctx, &cfgs[i], s * 65536 / slices, (s + 1) * 65536 / slices);
+    });
+    ctx.add_states((cfgs.len() * 65536) as u64);
+    ctx.add_transitions((cfgs.len() * 65536 * 2) as u64);
+    ctx.add_traces((cfgs.len() * 65536 * 2) as u64);
+    floating_bus(&ctx, false, false);
+    floating_bus(&ctx, true, false);
+    floating_bus(&ctx, true, true);
+    ear_bit(&ctx);
+    ctx.note("configurations", json!(cfgs.iter().map(cfg_name).collect::<Vec<_>>()));
+    ctx.sample(json!({"port":"0x7FFD","config":"128k","claims_write":["paging"],"claims_read":[]}));
+    ctx.note("not_judged", json!("addresses selecting two devices (e.g. even ports with A15=0,A1=0 on the 128K; even ports with A15=A14=1,A1=0), the wider A0=1,A5=0 family the word '-style' leaves open for the mouse, the phase of the floating bus inside the fetch window (+-8 T guard band)"));
+    ctx.finish(
+        "all 65536 port addresses x {IN A,(C), OUT (C),A executed by the emulated CPU} x {48K,128K} x Kempston on/off x mouse on/off x extender claim set {none, {CCCC}, odd ports with A7=1, {00FE}}; device read-back values pairwise distinct (key pattern with 8 distinct half-rows, Kempston 15h, mouse counters, AY register 5Ah, extender E7h, floating bus FFh in the border), write effects observed through border_color, the paging latch, AY read-back and the extender log; three-valued claim table from the statement, a port is judged when exactly one device claims it and none may; floating bus: an unclaimed port read at every T of the frame on 48K, 128K and 128K with the shadow screen displayed. states = (configuration, port) pairs",
+        true,
+        &["claim table transcribed from the property statement", "frame clock placed through the hook for the floating-bus sweep"],
+    )
 }
